@@ -4,6 +4,43 @@
 -/
 namespace Gen.C05
 
+/-- comparisons with an optional number.  `…Opt`: `none` is Python's `None` (the code never compares with it: the test
+    `x is None or …` comes first), so every comparison with it is false; `…Inf`: `none` is `float("inf")`. -/
+def ltOpt (a : Rat) : Option Rat → Bool
+  | none => false
+  | some b => decide (a < b)
+def gtOpt (a : Rat) : Option Rat → Bool
+  | none => false
+  | some b => decide (a > b)
+def eqOpt (a : Rat) : Option Rat → Bool
+  | none => false
+  | some b => decide (a = b)
+def ltInf (a : Rat) : Option Rat → Bool
+  | none => true
+  | some b => decide (a < b)
+def gtInf (a : Rat) : Option Rat → Bool
+  | none => false
+  | some b => decide (a > b)
+def eqInf (a : Rat) : Option Rat → Bool
+  | none => false
+  | some b => decide (a = b)
+/-- a possibly infinite number (`none` = `float("inf")`) against another one, and against a running extremum that is `None` before the
+    first element -/
+def ltE : Option Rat → Option Rat → Bool
+  | some a, some b => decide (a < b)
+  | some _, none => true
+  | none, _ => false
+def ltOptE (a : Option Rat) : Option (Option Rat) → Bool
+  | none => false
+  | some b => ltE a b
+def eqOptE (a : Option Rat) : Option (Option Rat) → Bool
+  | none => false
+  | some b => a == b
+
+def argminLoop : (Option (Option Rat)) → (List Nat) → List (Nat × Rat × Rat × Rat) → ((Option (Option Rat)) × (List Nat))
+  | best, arg, [] => (best, arg)
+  | best, arg, x :: xs => (if (decide (x.2.1 = (0 : Rat))) then (if ((best).isNone || (ltOptE none best)) then (argminLoop ((some none)) [x.1] xs) else (if (eqOptE none best) then (argminLoop best ((arg ++ [x.1])) xs) else (argminLoop best arg xs))) else (if ((best).isNone || (ltOptE (some ((x.2.2.1 + x.2.2.2) / x.2.1)) best)) then (argminLoop ((some (some ((x.2.2.1 + x.2.2.2) / x.2.1)))) [x.1] xs) else (if (eqOptE (some ((x.2.2.1 + x.2.2.2) / x.2.1)) best) then (argminLoop best ((arg ++ [x.1])) xs) else (argminLoop best arg xs))))
+
 def totalLoad (m load : Rat) : Rat := (m * load)
 
 def unsupported (score : Rat) : Bool := (decide (score = (0 : Rat)))
